@@ -171,6 +171,10 @@ func (z *Int) Equal(s2 *Int) bool {
 }
 
 func (z *Int) Set(a *Int) *Int {
+	if z == a {
+		// bigmod.Nat.Set clears the receiver before it copies: x.Set(x) would zero x
+		return z
+	}
 	z.Int.Set(&a.Int)
 	return z
 }
